@@ -363,4 +363,12 @@ def main(argv=None):
 
 
 if __name__ == "__main__":
-    sys.exit(main())
+    try:
+        rc = main()
+    except SystemExit as e:  # a monitor / adapter that cannot attach says so: inconclusive, never a bare failure
+        if isinstance(e.code, str):
+            print(e.code if e.code.startswith("INCONCLUSIVE") else "INCONCLUSIVE reason=" + e.code)
+            rc = 2
+        else:
+            rc = e.code
+    sys.exit(rc)
